@@ -12,6 +12,7 @@
 package c11
 
 import (
+	"syscall"
 	"bytes"
 	"encoding/json"
 	"fmt"
@@ -1061,7 +1062,32 @@ func sortMaxLen(thorough bool) int {
 	return 4
 }
 
+const fallbackCmd = `ulimit -v 3000000; exec "$0" "$@"`
+
+// ensureFallbackInt re-executes the worker under `ulimit -v` so that the 4 GB
+// reservation of the optimised Int representation fails and every Int is a
+// *big.Int (the fallback representation).
+func ensureFallbackInt() {
+	if starlark.VerifIntRepr() == "posix64-fallback" {
+		return
+	}
+	if os.Getenv("VERIF_C11_REEXEC") != "" {
+		fw.Fatal("c11: `ulimit -v` did not select the fallback Int representation (have %s)", starlark.VerifIntRepr())
+	}
+	self, err := os.Executable()
+	if err != nil {
+		fw.Fatal("c11: %v", err)
+	}
+	argv := append([]string{"bash", "-c", fallbackCmd, self}, os.Args[1:]...)
+	if err := syscall.Exec("/bin/bash", argv, append(os.Environ(), "VERIF_C11_REEXEC=1")); err != nil {
+		fw.Fatal("c11: exec bash: %v", err)
+	}
+}
+
 func worker(c *fw.Ctx) *fw.Stats {
+	if len(c.Args) > 0 && c.Args[0] == "fallback-int" {
+		ensureFallbackInt()
+	}
 	e := newEnv(c.Thorough())
 	b, err := os.ReadFile(rankFile(c.Tier))
 	if err != nil {
@@ -1196,7 +1222,19 @@ func run(c *fw.Ctx) *fw.Stats {
 		fw.Fatal("c11: %v", err)
 	}
 	total := c.Sharded(16, nil)
+	// the same exploration with every Int held in the fallback representation
+	fb := c.Sharded(16, nil, "fallback-int")
 	os.Remove(rankFile(c.Tier))
+	for k, v := range fb.Counters {
+		if strings.HasPrefix(k, "level_done:") || strings.HasPrefix(k, "level_cut:") {
+			total.Counters["fallback-int:"+k] += v
+			delete(fb.Counters, k)
+		}
+	}
+	for i := range fb.Viols {
+		fb.Viols[i].What += " [Int representation: fallback (*big.Int for every value)]"
+	}
+	total.Merge(fb)
 	n := int64(len(e.pool))
 	levels := []struct{ name, desc string }{
 		{"1-pairs", fmt.Sprintf("1-pairs(all %d ordered pairs of %d values: ==, !=, <, <=, >, >= through interpreter/Compare/Equal, Hash, dict/set/list membership and slots)", n*n, n)},
@@ -1213,6 +1251,14 @@ func run(c *fw.Ctx) *fw.Stats {
 			total.Levels = append(total.Levels, l.desc)
 		} else {
 			total.Cut = append(total.Cut, fmt.Sprintf("%s: cut in %d of 16 shards", l.desc, ct))
+		}
+		fd, fct := total.Counters["fallback-int:level_done:"+l.name], total.Counters["fallback-int:level_cut:"+l.name]
+		delete(total.Counters, "fallback-int:level_done:"+l.name)
+		delete(total.Counters, "fallback-int:level_cut:"+l.name)
+		if fd == 16 && fct == 0 {
+			total.Levels = append(total.Levels, l.name+"(fallback Int representation)")
+		} else {
+			total.Cut = append(total.Cut, fmt.Sprintf("%s(fallback Int representation): cut in %d of 16 shards", l.name, fct))
 		}
 	}
 	total.Count("numeric_values_ranked_by_python_fractions", int64(len(ranks)))
